@@ -169,6 +169,7 @@ def run_scenario(rec, sc, fault=None, golden=None):
     import typhon.files.utils as U
     root = scratch_dir("c12")
     old_tmp = tempfile.tempdir
+    other_dir = None
     case = {"kind": "scenario", "sc": sc, "fault": fault}
     try:
         tdir = os.path.join(root, "target")
@@ -176,8 +177,17 @@ def run_scenario(rec, sc, fault=None, golden=None):
         systmp = os.path.join(root, "systmp")
         for d in (tdir, xtmp, systmp):
             os.mkdir(d)
+        if sc["tmpdir"] == "otherfs":
+            # the explicit temporary directory lies on another file system than the target (a RAM disk
+            # for scratch data, the archive on a data disk): rename() across them is refused (EXDEV)
+            other = other_filesystem_dir(root)
+            if other is None:
+                rec.count("tmpdir.other_filesystem_unavailable")
+                return None
+            xtmp = other_dir = other
+            rec.count("tmpdir.other_filesystem_runs")
         tempfile.tempdir = systmp
-        tmparg = xtmp if sc["tmpdir"] == "explicit" else None
+        tmparg = xtmp if sc["tmpdir"] in ("explicit", "otherfs") else None
         target = os.path.join(tdir, scenario_name(sc))
         fmtarg = None if sc["via"] == "suffix" else sc["fmt"]
         content = content_bytes(sc["content"], sc["cseed"])
@@ -353,6 +363,20 @@ def run_scenario(rec, sc, fault=None, golden=None):
     finally:
         tempfile.tempdir = old_tmp
         shutil.rmtree(root, ignore_errors=True)
+        if other_dir:
+            shutil.rmtree(other_dir, ignore_errors=True)
+
+
+def other_filesystem_dir(root):
+    """A new directory on a file system other than the one of `root` (None when there is none)."""
+    dev = os.stat(root).st_dev
+    for base in ("/dev/shm", "/run/shm", "/var/tmp", "/tmp", os.path.expanduser("~")):
+        try:
+            if os.path.isdir(base) and os.stat(base).st_dev != dev and os.access(base, os.W_OK):
+                return tempfile.mkdtemp(prefix="vt-c12-otherfs-", dir=base)
+        except OSError:
+            continue
+    return None
 
 
 def passthrough_case(rec, rng):
@@ -618,6 +642,11 @@ def run_shard(spec, rec):
              for i, c in enumerate(CONTENTS) if i % 4 == spec["part"]]
     for sc in fixed + gen_scenarios(rng, fmt, spec["n"]):
         enumerate_faults(rec, sc)
+    for via in ("suffix", "fmt"):
+        sc = {"fmt": fmt, "via": via, "content": CONTENTS[spec["part"] % len(CONTENTS)], "cseed": spec["seed"] + 17,
+              "name": "plain", "tmpdir": "otherfs", "pre": via == "fmt", "dtarget": False, "dtarget_pre": False}
+        run_scenario(rec, sc, None)
+        run_scenario(rec, sc, ["body", "after"])
     passthrough_case(rec, rng)
     corrupt_cases(rec, rng, fmt, 6 if spec["n"] <= 3 else 40)
     for _ in range(1 if spec["n"] <= 3 else 10):
